@@ -74,6 +74,69 @@ def check_accumulate(ctx: Ctx, f: Func, rule: str) -> int:
     return n
 
 
+def resolver_cache_key_complete(ctx: Ctx, rule: str) -> int:
+    """The per-evaluation cache of the resolver (`cached_objects`) is keyed by the name looked up AND the whole path of the module it is looked up in: a key that keeps only a
+    projection of the module path (its head - the package -, its last segment) makes two modules of one package share an entry: the name of the second one resolves to the object of
+    the first, and edits of the second one's variable change no signature."""
+    from ..flow import flow_of
+    rep = ctx.report
+    prog = ctx.prog
+    n = 0
+    LOSSY = ("head", "last", "tail", "stem", "name")
+    for f in prog.funcs.values():
+        if f.module.name != "dds._retrieve_objects":
+            continue
+        a = f.node.args
+        ann = {x.arg: (unparse(x.annotation, 100) if x.annotation is not None else "") for x in a.posonlyargs + a.args + a.kwonlyargs}
+        if not any("ModuleType" in t for t in ann.values()):
+            continue  # keyed by a canonical path that already names the module
+        fl = flow_of(prog, f)
+        keys = []
+        for x in f.own_nodes():
+            if isinstance(x, ast.Subscript) and isinstance(x.value, ast.Attribute) and x.value.attr == "cached_objects":
+                keys.append(x.slice)
+            elif isinstance(x, ast.Compare) and len(x.ops) == 1 and isinstance(x.ops[0], (ast.In, ast.NotIn)) and isinstance(x.comparators[0], ast.Attribute) \
+                    and x.comparators[0].attr == "cached_objects":
+                keys.append(x.left)
+        seen_defs = set()
+        for k in keys:
+            exprs = [k]
+            if isinstance(k, ast.Name):
+                try:
+                    exprs = [d.value for d in fl.defs_of_use(k) if d.value is not None]
+                except Exception:
+                    exprs = []
+            for e in exprs:
+                if id(e) in seen_defs or not isinstance(e, ast.Tuple):
+                    continue
+                seen_defs.add(id(e))
+                n += 1
+                desc = f"{f.name}: the cache key `{unparse(e, 60)}` holds the whole path of the module"
+                whole, lossy = False, []
+                for el in e.elts:
+                    roots = [el]
+                    if isinstance(el, ast.Name):
+                        try:
+                            roots = [d.value for d in fl.root_defs(el) if d.value is not None] or [el]
+                        except Exception:
+                            roots = [el]
+                    for r_ in roots + [el]:
+                        calls = [c for c in ast.walk(r_) if isinstance(c, ast.Call)]
+                        is_mod_path = any((prog.dotted(f, c.func) or unparse(c.func)).split(".")[-1] in ("_mod_path", "function_path") for c in calls)
+                        proj = [c for c in calls if isinstance(c.func, ast.Attribute) and c.func.attr in LOSSY] + [y for y in ast.walk(r_) if isinstance(y, ast.Subscript) and "parts" in unparse(y.value, 60)]
+                        if is_mod_path and not proj and r_ is not el or (is_mod_path and not proj and isinstance(el, ast.Call)):
+                            whole = True
+                        if is_mod_path and proj or (proj and any("mod" in unparse(c, 60) for c in proj)):
+                            lossy.append(unparse(r_ if r_ is not el else el, 60))
+                if whole and not lossy:
+                    rep.ok(rule, f.qname, desc, f.loc(e))
+                else:
+                    rep.bad(rule, f.qname, desc, f.loc(e), [f"{f.loc(e)}: " + (f"the module enters the key through `{lossy[0]}` only" if lossy else "no component of the key is the path of the module"),
+                            "`pkg.top` and `pkg.bb.cc.leaf` - both accepted - each define SCALE: within one evaluation the second module's SCALE resolves to the first one's object; editing "
+                            "the second one changes no signature and the stale result is served"], "cache-key-lossy", what="the resolver's cache confuses the modules of one package")
+    return n
+
+
 def check_growing_prefix(ctx: Ctx, f: Func, rule: str) -> int:
     """`acc = []`, `for part in S: acc.append(part); ... ".".join(acc) ...`: every non-empty prefix of S, by construction - provided S is the whole
     sequence of parts (not a slice), the list starts empty and the loop variable is appended once, first thing in the body, at every iteration"""
@@ -535,6 +598,11 @@ def run(ctx: Ctx) -> None:
     rep.rule("C14.R8", "as C03.R3(i): no process-wide cache of resolutions / authorisation answers is written and served to later evaluations "
                        "(the accepted set can change between two evaluations of one process)")
     global_cache_rule(ctx, "C14.R8")
+    from .common import public_aliases_call as _pac
+    rep.rule("C14.R22", "every public spelling of `accept_module` (the deprecated `whitelist_module` included) CALLS the internal function: a package accepted through an alias is accepted")
+    rep.floor("C14.R22", _pac(ctx, "C14.R22"), 4)
+    rep.rule("C14.R23", "the resolver's cache is keyed by the name and the WHOLE module path: two accepted modules of one package never share an entry")
+    rep.floor("C14.R23", resolver_cache_key_complete(ctx, "C14.R23"), 1)
 
 
 def accumulators_not_overwritten(ctx: Ctx, rule: str, modules) -> int:
